@@ -797,6 +797,15 @@ int yr_ac_automaton_destroy(YR_AC_AUTOMATON* automaton)
 // Adds a string to the automaton. This function is invoked once for each
 // string defined in the rules.
 //
+#ifdef YARA_VERIF
+// Verification hook H3: one call per atom inserted into the automaton.
+void (*yr_verif_atom_hook)(
+    uint32_t string_idx,
+    const uint8_t* bytes,
+    int length,
+    int backtrack) = NULL;
+#endif
+
 int yr_ac_add_string(
     YR_AC_AUTOMATON* automaton,
     YR_STRING* string,
@@ -851,6 +860,15 @@ int yr_ac_add_string(
     // Add newly created match to the list of matches for the state.
     new_match->next = yr_arena_ref_to_ptr(arena, &state->matches_ref);
     state->matches_ref = new_match_ref;
+
+#ifdef YARA_VERIF
+    if (yr_verif_atom_hook != NULL)
+      yr_verif_atom_hook(
+          string_idx,
+          atom->atom.bytes,
+          atom->atom.length,
+          new_match->backtrack);
+#endif
 
     atom = atom->next;
   }
